@@ -3,6 +3,7 @@ import HbsModel.Lemmas.RM
 import HbsModel.Props.C02
 import HbsModel.Props.C10
 import HbsModel.Lemmas.Assoc
+import HbsModel.Lemmas.CallTag
 /-
   C18  A render error points at the tag that failed.
 -/
@@ -238,5 +239,198 @@ theorem missing_variable_points_at_the_tag (r : Registry) (fs : FS) (name L R : 
     simp only [renderElem] at herr
     simp only [herr]
     simp [decorateRender, strictError, RenderError.of, Out.text]
+
+/-- **… for EVERY identifier**: `L ++ {{name}} ++ R` in strict mode on data without a field `name` fails with
+    MissingVariable(name) at the line and column of the tag's `{{`, after exactly `L` was written – for every name of the
+    grammar's `symbol_char` class (not beginning with `else`, not `this`, not a helper). -/
+theorem missing_name_points_at_the_tag (r : Registry) (fs : FS) (nm name L R : Str) (data : Json)
+    (hnm : PlainText.IdentName nm) (hthis : (nm == str "this") = false)
+    (hdev : r.dev = false) (hstrict : r.strict = true)
+    (hL : L = [] ∨ PlainText.TextBeforeTag L) (hR : PlainText.noOpen R)
+    (hnohelper : assocGet r.helpers nm = none)
+    (hsafe : Spec.indexSafe data [nm] = true) (hmiss : Spec.descend data [nm] = none) :
+    ∃ r', r.registerTemplateString name (L ++ C02.nameTag nm ++ R) = .ok r' ∧
+      r'.render fs name data = .err
+        { reason := .missingVariable (some nm), name := some name,
+          line := some (Pest.lineCol (L ++ C02.nameTag nm ++ R) L.length).1, col := some (Pest.lineCol (L ++ C02.nameTag nm ++ R) L.length).2 } L := by
+  obtain ⟨extra, hcomp⟩ := PlainText.compile_text_name_text_pos nm L _ _ { name := some name, isPartial := false, preventIndent := r.preventIndent }
+    hnm hthis hL (PlainText.textAfterTag_split R hR)
+  rw [← PlainText.split_ws R] at hcomp
+  unfold Registry.registerTemplateString
+  rw [show C02.nameTag nm = PlainText.identSrc nm from rfl, hcomp]
+  refine ⟨_, rfl, ?_⟩
+  generalize hT : Tmpl.mk (some name) ((PlainText.leftT L L).elements ++ [Elem.expr (PlainText.nameHT nm)] ++ if R = [] then [] else [Elem.raw R])
+    ((PlainText.leftT L L).mapping ++ [Pest.lineCol (L ++ PlainText.identSrc nm ++ R) L.length] ++ extra) = T
+  have hload : (r.registerTemplate name T).getOrLoad fs name = .ok T := by
+    simp [Registry.getOrLoad, Registry.getOrLoadOptional, Registry.registerTemplate, hdev, assocInsert, assocGet_insert_same]
+  have hdev' : (r.registerTemplate name T).dev = false := by simp [Registry.registerTemplate, hdev]
+  have hs' : (r.registerTemplate name T).strict = true := by simp [Registry.registerTemplate, hstrict]
+  have hh' : assocGet (r.registerTemplate name T).helpers nm = none := by simp [Registry.registerTemplate, hnohelper]
+  generalize r.registerTemplate name T = reg at *
+  simp only [Registry.render, Registry.renderToOutput, hload, Registry.renderResolved, hdev', Bool.not_false, ↓reduceIte]
+  subst hT
+  -- the render: (the text,) then the failing expression
+  have hreg : ∀ (reg : Registry), reg.strict = true → assocGet reg.helpers nm = none →
+      ∀ (rc : RC) (out : Out) (fuel : Nat), rc.blocks = [{}] → rc.modifiedCtx = none → assocGet rc.localHelpers nm = none →
+      renderElem reg data (fuel + 4) (.expr (PlainText.nameHT nm)) rc out = .err (strictError (some nm)) out := by
+    intro reg hs hh rc out fuel hb hmc hl
+    have hev : evaluate2 data (.relative [.named nm] nm) rc out = .ok .missing rc out := by
+      have := C01.navigate_current_path_scope data {} [] nm [] rc out (by simp [getInBlockParams, assocGet]) rfl (by simpa using hsafe)
+      simp only [C01.names, List.map_cons, List.map_nil] at this
+      simp only [evaluate2, RM.bind_def, RM.bnd_apply, RM.get_apply, hb, this, C01.blockValue, Spec.descend]
+      simp only [Option.bind]
+      have hj' : (Spec.step data nm).bind (fun v' => Spec.descend v' []) = none := by simpa [Spec.descend] using hmiss
+      simp [Spec.descend] at hj' ⊢
+      rw [hj']
+    have := C10.strict_missing_is_error reg data (fuel + 0) (PlainText.nameHT nm) (.relative [.named nm] nm) rc out rfl rfl hl hh hmc hs hev
+    simp only [renderElem]
+    exact this
+  generalize hlc : Pest.lineCol (L ++ PlainText.identSrc nm ++ R) L.length = lc
+  generalize (if R = [] then [] else [Elem.raw R]) = tail
+  have hf : renderFuel = (3993 + 4) + 1 + 1 + 1 := by decide
+  unfold runRM
+  by_cases hLe : L = []
+  · subst hLe
+    have herr := hreg reg hs' hh' { ({ rootTemplate := some name } : RC) with currentTemplate := some name } {} (3993 + 1) rfl rfl rfl
+    rw [hf]
+    simp only [PlainText.leftT, ↓reduceIte, Tmpl.empty, Tmpl.elements, Tmpl.mapping, Tmpl.name, List.nil_append, List.cons_append,
+      renderTemplate, renderElems, RM.bind_def, RM.bnd_apply, RM.get_apply, RM.modifyAux_apply, RM.mapErr, herr]
+    simp [decorateRender, strictError, RenderError.of, Out.text]
+  · have hwr := indentAwareWrite_plain L { ({ rootTemplate := some name } : RC) with currentTemplate := some name } {} hLe rfl (by simp)
+    have herr := hreg reg hs' hh' { rootTemplate := some name, currentTemplate := some name, contentProduced := true, trailingNewline := endsWithNewline L, indentBeforeWrite := endsWithNewline L } { segs := [L], count := 1 } 3993 rfl rfl rfl
+    rw [hf]
+    simp only [PlainText.leftT, hLe, ↓reduceIte, Tmpl.elements, Tmpl.mapping, Tmpl.name, List.nil_append, List.cons_append,
+      renderTemplate, renderElems, renderElem, RM.bind_def, RM.bnd_apply, RM.get_apply, RM.modifyAux_apply, RM.mapErr, hwr, List.drop]
+    simp only [renderElem] at herr
+    simp only [herr]
+    simp [decorateRender, strictError, RenderError.of, Out.text]
+
+/-- **… and for the unescaped spellings** `{{{name}}}` (pre = `{`, cl = `}}}`) and `{{&name}}` (pre = `&`, cl = `}}`): the
+    same error at the same position – the line and column of the tag's `{{` – after exactly `L` was written. -/
+theorem missing_html_name_points_at_the_tag (r : Registry) (fs : FS) (pre cl nm name L R : Str) (data : Json)
+    (hform : (pre = ['{'] ∧ cl = ['}', '}', '}']) ∨ (pre = ['&'] ∧ cl = ['}', '}']))
+    (hnm : PlainText.IdentName nm) (hthis : (nm == str "this") = false)
+    (hdev : r.dev = false) (hstrict : r.strict = true)
+    (hL : L = [] ∨ PlainText.TextBeforeTag L) (hR : PlainText.noOpen R)
+    (hnohelper : assocGet r.helpers nm = none)
+    (hsafe : Spec.indexSafe data [nm] = true) (hmiss : Spec.descend data [nm] = none) :
+    ∃ r', r.registerTemplateString name (L ++ PlainText.hsrcG pre nm cl ++ R) = .ok r' ∧
+      r'.render fs name data = .err
+        { reason := .missingVariable (some nm), name := some name,
+          line := some (Pest.lineCol (L ++ PlainText.hsrcG pre nm cl ++ R) L.length).1, col := some (Pest.lineCol (L ++ PlainText.hsrcG pre nm cl ++ R) L.length).2 } L := by
+  have hpre : pre.length = 1 := by rcases hform with ⟨rfl, _⟩ | ⟨rfl, _⟩ <;> rfl
+  have hcl : 0 < cl.length := by rcases hform with ⟨_, rfl⟩ | ⟨_, rfl⟩ <;> decide
+  have hT : PlainText.TagAt (PlainText.hsrcG pre nm cl) (nm.length + 110)
+      (PlainText.identToksG .r_html_expression 3 nm.length (nm.length + 3 + cl.length)) := by
+    rcases hform with ⟨rfl, rfl⟩ | ⟨rfl, rfl⟩
+    · simpa [PlainText.hsrcG, PlainText.htmlSrc] using PlainText.html_name_tagAt nm hnm
+    · simpa [PlainText.hsrcG, PlainText.ampSrc] using PlainText.amp_name_tagAt nm hnm
+  obtain ⟨extra, hcomp⟩ := PlainText.compile_text_htmlname_text_pos pre cl nm L _ _ { name := some name, isPartial := false, preventIndent := r.preventIndent }
+    hpre hcl (nm.length + 110) (by omega) hT hthis hL (PlainText.textAfterTag_split R hR)
+  rw [← PlainText.split_ws R] at hcomp
+  unfold Registry.registerTemplateString
+  rw [hcomp]
+  refine ⟨_, rfl, ?_⟩
+  generalize hT : Tmpl.mk (some name) ((PlainText.leftT L L).elements ++ [Elem.html (PlainText.nameHT nm)] ++ if R = [] then [] else [Elem.raw R])
+    ((PlainText.leftT L L).mapping ++ [Pest.lineCol (L ++ PlainText.hsrcG pre nm cl ++ R) L.length] ++ extra) = T
+  have hload : (r.registerTemplate name T).getOrLoad fs name = .ok T := by
+    simp [Registry.getOrLoad, Registry.getOrLoadOptional, Registry.registerTemplate, hdev, assocInsert, assocGet_insert_same]
+  have hdev' : (r.registerTemplate name T).dev = false := by simp [Registry.registerTemplate, hdev]
+  have hs' : (r.registerTemplate name T).strict = true := by simp [Registry.registerTemplate, hstrict]
+  have hh' : assocGet (r.registerTemplate name T).helpers nm = none := by simp [Registry.registerTemplate, hnohelper]
+  generalize r.registerTemplate name T = reg at *
+  simp only [Registry.render, Registry.renderToOutput, hload, Registry.renderResolved, hdev', Bool.not_false, ↓reduceIte]
+  subst hT
+  -- the render: (the text,) then the failing expression
+  have hreg : ∀ (reg : Registry), reg.strict = true → assocGet reg.helpers nm = none →
+      ∀ (rc : RC) (out : Out) (fuel : Nat), rc.blocks = [{}] → rc.modifiedCtx = none → assocGet rc.localHelpers nm = none →
+      renderElem reg data (fuel + 4) (.html (PlainText.nameHT nm)) rc out = .err (strictError (some nm)) out := by
+    intro reg hs hh rc out fuel hb hmc hl
+    have hev : ∀ rc', rc'.blocks = rc.blocks → evaluate2 data (.relative [.named nm] nm) rc' out = .ok .missing rc' out := by
+      intro rc' hbl
+      have hb' : rc'.blocks = [{}] := by rw [hbl, hb]
+      have := C01.navigate_current_path_scope data {} [] nm [] rc' out (by simp [getInBlockParams, assocGet]) rfl (by simpa using hsafe)
+      simp only [C01.names, List.map_cons, List.map_nil] at this
+      simp only [evaluate2, RM.bind_def, RM.bnd_apply, RM.get_apply, hb', this, C01.blockValue, Spec.descend]
+      simp only [Option.bind]
+      have hj' : (Spec.step data nm).bind (fun v' => Spec.descend v' []) = none := by simpa [Spec.descend] using hmiss
+      simp [Spec.descend] at hj' ⊢
+      rw [hj']
+    exact C10.strict_missing_is_error_html reg data fuel (PlainText.nameHT nm) (.relative [.named nm] nm) rc out rfl rfl hl hh hmc hs hev
+  generalize hlc : Pest.lineCol (L ++ PlainText.hsrcG pre nm cl ++ R) L.length = lc
+  generalize (if R = [] then [] else [Elem.raw R]) = tail
+  have hf : renderFuel = (3993 + 4) + 1 + 1 + 1 := by decide
+  unfold runRM
+  by_cases hLe : L = []
+  · subst hLe
+    have herr := hreg reg hs' hh' { ({ rootTemplate := some name } : RC) with currentTemplate := some name } {} (3993 + 1) rfl rfl rfl
+    rw [hf]
+    simp only [PlainText.leftT, ↓reduceIte, Tmpl.empty, Tmpl.elements, Tmpl.mapping, Tmpl.name, List.nil_append, List.cons_append,
+      renderTemplate, renderElems, RM.bind_def, RM.bnd_apply, RM.get_apply, RM.modifyAux_apply, RM.mapErr, herr]
+    simp [decorateRender, strictError, RenderError.of, Out.text]
+  · have hwr := indentAwareWrite_plain L { ({ rootTemplate := some name } : RC) with currentTemplate := some name } {} hLe rfl (by simp)
+    have herr := hreg reg hs' hh' { rootTemplate := some name, currentTemplate := some name, contentProduced := true, trailingNewline := endsWithNewline L, indentBeforeWrite := endsWithNewline L } { segs := [L], count := 1 } 3993 rfl rfl rfl
+    rw [hf]
+    simp only [PlainText.leftT, hLe, ↓reduceIte, Tmpl.elements, Tmpl.mapping, Tmpl.name, List.nil_append, List.cons_append,
+      renderTemplate, renderElems, renderElem, RM.bind_def, RM.bnd_apply, RM.get_apply, RM.modifyAux_apply, RM.mapErr, hwr, List.drop]
+    simp only [renderElem] at herr
+    simp only [herr]
+    simp [decorateRender, strictError, RenderError.of, Out.text]
+
+/-- `{{h 1}}` -/
+abbrev callTag : Str := PlainText.callSrc
+
+/-- **an unknown helper is reported at its tag**: for every text `L` that may stand before a tag and every text `R` without
+    `{{`, the template `L ++ {{h 1}} ++ R` registered under `name` and rendered – in either mode, on any data – by a registry
+    with no helper `h` and no `helperMissing` hook fails with HelperNotFound("h"), the error names the template and carries the
+    line and column of the tag's `{{` (pest's line/column of offset |L|), and exactly `L` was written before it. -/
+theorem unknown_helper_points_at_the_tag (r : Registry) (fs : FS) (name L R : Str) (data : Json)
+    (hdev : r.dev = false)
+    (hL : L = [] ∨ PlainText.TextBeforeTag L) (hR : PlainText.noOpen R)
+    (hnohelper : assocGet r.helpers ['h'] = none) (hnohook : assocGet r.helpers HELPER_MISSING = none) :
+    ∃ r', r.registerTemplateString name (L ++ callTag ++ R) = .ok r' ∧
+      r'.render fs name data = .err
+        { reason := .helperNotFound ['h'], name := some name,
+          line := some (Pest.lineCol (L ++ callTag ++ R) L.length).1, col := some (Pest.lineCol (L ++ callTag ++ R) L.length).2 } L := by
+  obtain ⟨extra, hcomp⟩ := PlainText.compile_text_call_text_pos L _ _ { name := some name, isPartial := false, preventIndent := r.preventIndent }
+    hL (PlainText.textAfterTag_split R hR)
+  rw [← PlainText.split_ws R] at hcomp
+  unfold Registry.registerTemplateString
+  rw [show callTag = PlainText.callSrc from rfl, hcomp]
+  refine ⟨_, rfl, ?_⟩
+  generalize hT : Tmpl.mk (some name) ((PlainText.leftT L L).elements ++ [Elem.expr PlainText.callHT] ++ if R = [] then [] else [Elem.raw R])
+    ((PlainText.leftT L L).mapping ++ [Pest.lineCol (L ++ PlainText.callSrc ++ R) L.length] ++ extra) = T
+  have hload : (r.registerTemplate name T).getOrLoad fs name = .ok T := by
+    simp [Registry.getOrLoad, Registry.getOrLoadOptional, Registry.registerTemplate, hdev, assocInsert, assocGet_insert_same]
+  have hdev' : (r.registerTemplate name T).dev = false := by simp [Registry.registerTemplate, hdev]
+  have hh' : assocGet (r.registerTemplate name T).helpers ['h'] = none := by simp [Registry.registerTemplate, hnohelper]
+  have hk' : assocGet (r.registerTemplate name T).helpers HELPER_MISSING = none := by simp [Registry.registerTemplate, hnohook]
+  generalize r.registerTemplate name T = reg at *
+  simp only [Registry.render, Registry.renderToOutput, hload, Registry.renderResolved, hdev', Bool.not_false, ↓reduceIte]
+  subst hT
+  have hreg : ∀ (rc : RC) (out : Out) (fuel : Nat), assocGet rc.localHelpers ['h'] = none →
+      renderElem reg data (fuel + 6) (.expr PlainText.callHT) rc out = .err (.of (.helperNotFound ['h'])) out := by
+    intro rc out fuel hl
+    simp [renderElem, renderExpression, renderHelper, helperFromTemplate, PlainText.callHT, HelperG.new, HelperG.isNameOnly, expandAsName,
+      expandParams, expandParam, expandHash, RM.bnd_apply, hl, hh', hk']
+  generalize hlc : Pest.lineCol (L ++ PlainText.callSrc ++ R) L.length = lc
+  generalize (if R = [] then [] else [Elem.raw R]) = tail
+  have hf : renderFuel = (3991 + 6) + 1 + 1 + 1 := by decide
+  unfold runRM
+  by_cases hLe : L = []
+  · subst hLe
+    have herr := hreg { ({ rootTemplate := some name } : RC) with currentTemplate := some name } {} (3991 + 1) rfl
+    rw [hf]
+    simp only [PlainText.leftT, ↓reduceIte, Tmpl.empty, Tmpl.elements, Tmpl.mapping, Tmpl.name, List.nil_append, List.cons_append,
+      renderTemplate, renderElems, RM.bind_def, RM.bnd_apply, RM.get_apply, RM.modifyAux_apply, RM.mapErr, herr]
+    simp [decorateRender, RenderError.of, Out.text]
+  · have hwr := indentAwareWrite_plain L { ({ rootTemplate := some name } : RC) with currentTemplate := some name } {} hLe rfl (by simp)
+    have herr := hreg { rootTemplate := some name, currentTemplate := some name, contentProduced := true, trailingNewline := endsWithNewline L, indentBeforeWrite := endsWithNewline L } { segs := [L], count := 1 } 3991 rfl
+    rw [hf]
+    simp only [PlainText.leftT, hLe, ↓reduceIte, Tmpl.elements, Tmpl.mapping, Tmpl.name, List.nil_append, List.cons_append,
+      renderTemplate, renderElems, renderElem, RM.bind_def, RM.bnd_apply, RM.get_apply, RM.modifyAux_apply, RM.mapErr, hwr, List.drop]
+    simp only [renderElem] at herr
+    simp only [herr]
+    simp [decorateRender, RenderError.of, Out.text]
 
 end Hbs.C18
